@@ -103,6 +103,9 @@ func (w *World) VerifyFunction(fn *ssa.Function, opts VerifyOpts) (res *FuncResu
 	env := ex.newEnv(fr, st)
 	if ctr != nil {
 		for _, rq := range ctr.Requires {
+			if !ex.activeProps(rq.Props) {
+				continue
+			}
 			t, err := ex.trBool(env, rq.E)
 			if err != nil {
 				unsupp("requires of %s: %v", fr.Name, err)
@@ -131,6 +134,7 @@ func (w *World) VerifyFunction(fn *ssa.Function, opts VerifyOpts) (res *FuncResu
 		}
 	}
 	ex.assumeGlobalInvs(fr, st)
+	ex.assumeUsedLemmas(fr, st)
 	// type invariants of pointer-typed parameters / receiver
 	for _, p := range fn.Params {
 		if _, ok := p.Type().Underlying().(*types.Pointer); ok {
@@ -207,7 +211,7 @@ func (ex *Ex) checkPosts(fr *Frame, st *State, results []Val, opts VerifyOpts) {
 			ex.Obls[name] = o
 			ex.OblOrder = append(ex.OblOrder, name)
 		}
-		o.Queries = append(o.Queries, &Query{PC: append([]*T(nil), st.pc...), Goal: tFalse, Heap: copyHeap(st.heap)})
+		o.Queries = append(o.Queries, &Query{PC: append([]*T(nil), st.pc...), Goal: tFalse, Heap: copyHeap(st.heap), Props: ex.Props})
 	}
 	var svs []SV
 	for i, r := range results {
@@ -233,6 +237,18 @@ func (ex *Ex) checkPosts(fr *Frame, st *State, results []Val, opts VerifyOpts) {
 			ex.oblige(fr, st, name, "post", ex.clauseProps(fr, en), "postcondition: "+en.Text, t, token.NoPos)
 		}
 		for _, name := range ctr.Maintains {
+			scope := ctr.MaintainsScope[name]
+			if len(scope) > 0 && ex.Props != nil {
+				want := false
+				for _, p := range scope {
+					if ex.Props[p] {
+						want = true
+					}
+				}
+				if !want {
+					continue
+				}
+			}
 			for _, gi := range ex.W.GlobalInvs {
 				if gi.Name != name {
 					continue
@@ -242,7 +258,11 @@ func (ex *Ex) checkPosts(fr *Frame, st *State, results []Val, opts VerifyOpts) {
 				if err != nil {
 					unsupp("global invariant %s: %v", gi.Name, err)
 				}
-				ex.oblige(fr, st, fr.Name+"#maintains."+gi.Name, "post", ex.safetyProps(fr), "global invariant re-established: "+gi.Text, t, token.NoPos)
+				mprops := ex.safetyProps(fr)
+				if len(scope) > 0 {
+					mprops = scope
+				}
+				ex.oblige(fr, st, fr.Name+"#maintains."+gi.Name, "post", mprops, "global invariant re-established: "+gi.Text, t, token.NoPos)
 			}
 		}
 	}
@@ -267,6 +287,56 @@ func (ex *Ex) wantClause(ctr *Contract, c *Clause) bool {
 		}
 	}
 	return len(ps) == 0
+}
+
+// assumeUsedLemmas: the statements of the pure lemmas named in `uses` clauses (each is proved on
+// its own as an obligation of its properties) are available as quantified facts.
+func (ex *Ex) assumeUsedLemmas(fr *Frame, st *State) {
+	if fr.Ctr == nil {
+		return
+	}
+	for _, name := range fr.Ctr.Uses {
+		var lem *Contract
+		for _, l := range ex.W.Lemmas {
+			if l.Name == name {
+				lem = l
+			}
+		}
+		if lem == nil {
+			unsupp("uses: unknown lemma %s", name)
+		}
+		env := &Env{ex: ex, st: st, vars: map[string]SV{}, pkgName: lem.PkgName}
+		var vars []*T
+		for _, p := range lem.Params {
+			ty, err := ex.W.ResolveType(p.Type, lem.PkgName)
+			if err != nil {
+				unsupp("uses %s: %v", name, err)
+			}
+			v := Var(p.Name+"$L", ex.sortOfS(ty))
+			vars = append(vars, v)
+			env.vars[p.Name] = SV{T: v, Ty: ty}
+		}
+		var pres, concl []*T
+		for _, rq := range lem.Requires {
+			t, err := ex.trBool(env, rq.E)
+			if err != nil {
+				unsupp("uses %s: %v", name, err)
+			}
+			pres = append(pres, t)
+		}
+		for _, s := range lem.Steps {
+			if s.Kind != "assert" {
+				unsupp("uses %s: only pure lemmas (requires + asserts) can be used", name)
+			}
+			t, err := ex.trBool(env, s.E)
+			if err != nil {
+				unsupp("uses %s: %v", name, err)
+			}
+			concl = append(concl, t)
+		}
+		ex.note("lemma " + name + " is used as a fact (proved separately as obligation lemma." + name + ")")
+		st.Assume(Forall(vars, Implies(And(pres...), And(concl...))))
+	}
 }
 
 func exprIdents(e *Expr, out map[string]bool) {
@@ -301,6 +371,18 @@ func (w *World) readsGlobals(fn *ssa.Function, depth int, seen map[*ssa.Function
 				if callee := c.Call.StaticCallee(); callee != nil && callee.Pkg != nil && w.InModule(callee.Pkg.Pkg) {
 					if ctr := w.Contracts[callee]; ctr == nil || ctr.Inline {
 						w.readsGlobals(callee, depth+1, seen, out)
+					} else {
+						// package variables named in the callee's contract reach the caller's
+						// proof context through the assumed postconditions
+						ids := map[string]bool{}
+						for _, cl := range ctr.Ensures {
+							exprIdents(cl.E, ids)
+						}
+						for id := range ids {
+							if g, ok := callee.Pkg.Members[id].(*ssa.Global); ok {
+								out[g] = true
+							}
+						}
 					}
 				}
 			}
@@ -347,6 +429,15 @@ func (ex *Ex) assumeGlobalInvs(fr *Frame, st *State) {
 func (w *World) RunLemma(lem *Contract, opts VerifyOpts) (res *FuncResult) {
 	ex := NewEx(w)
 	ex.Safety = false
+	// clauses scoped to other properties (requires[Cxx], type invariants) are neither demanded
+	// nor assumed in a lemma of different properties
+	ex.Props = opts.Props
+	if ex.Props == nil && len(lem.Props) > 0 {
+		ex.Props = map[string]bool{}
+		for _, p := range lem.Props {
+			ex.Props[p] = true
+		}
+	}
 	fr := &Frame{Ctr: lem, Name: "lemma." + lem.Name, Top: true, LemmaVars: map[string]SV{}}
 	ex.Top = fr
 	res = &FuncResult{Name: fr.Name}
